@@ -372,6 +372,8 @@ impl Pager {
         P: Buffer<IdType = PageId>,
         MemFrame: From<Frame<P>> + From<Frame<MemBlock<P::Header>>>,
     {
+        #[cfg(feature = "verif")]
+        let reused = self.first_free_page().is_some();
         let mem_page = if let Some(page_id) = self.first_free_page() {
             let next = self.with_page::<OverflowPage, _, _>(page_id, |overflow| overflow.next())?;
 
@@ -403,6 +405,9 @@ impl Pager {
         mem_page.mark_dirty();
         let id = mem_page.page_number();
         self.cache_frame(mem_page)?;
+
+        #[cfg(feature = "verif")]
+        crate::verif::page_event(crate::verif::PageEvent::Alloc { id, reused });
 
         Ok(id)
     }
@@ -518,6 +523,9 @@ impl Pager {
             deallocated_page.mark_dirty();
             self.cache_frame(deallocated_page)?;
         };
+
+        #[cfg(feature = "verif")]
+        crate::verif::page_event(crate::verif::PageEvent::Dealloc { id });
 
         Ok(())
     }
